@@ -223,6 +223,23 @@ def fixed_width_facts():
     return {"responsesUseFixedWidthFields": not bad, "lines": bad}
 
 
+def c28_generated_source():
+    """lean/PV/Generated/C28.lean (shared by the C28 and C29 checks): request size constants and the lock-region
+    fact about SFTPClient._async_request."""
+    import paramiko.sftp_file as sf
+
+    facts = async_request_facts()
+    return ("/- generated from paramiko/sftp_file.py, paramiko/file.py and the AST of "
+            "SFTPClient._async_request -/\nnamespace PV.Generated.C28\n"
+            "def maxRequestSize : Nat := %d\ndef defaultBufsize : Nat := %d\n"
+            "/-- every use of self.request_number in _async_request (the id written into the packet, the "
+            "registration in _expecting, the increment) lies inside the acquire/try/finally-release region "
+            "of self._lock: allocating a request number and putting it into the packet is one atomic step -/\n"
+            "def idReadUnderLock : Bool := %s\nend PV.Generated.C28\n"
+            % (sf.SFTPFile.MAX_REQUEST_SIZE, sf.SFTPFile._DEFAULT_BUFSIZE,
+               "true" if facts["idReadUnderLock"] else "false"))
+
+
 def lean_source():
     consts, branches, else_types, named = generate()
     pcounts, else_counts, helper_counts = path_counts()
